@@ -21,9 +21,29 @@ THEOREMS = ["Claripy.Props.C12.C12_mro_child", "Claripy.Props.C12.C12_mro_compos
             # the other value queries (generic query theorem + footprints of batch_eval / solution), the witness about _reabsorb_solver
             "Claripy.Props.C12.C12_batch_eval_correct", "Claripy.Props.C12.C12_solution_correct",
             "Claripy.Props.C12.C12_child_footprint_batch_solution", "Claripy.Props.C12.C12_value_query_after_history_partial",
-            "Claripy.Props.C12.C12_reabsorb_breaks_CInv_as_stated", "Claripy.Solver.compQuery_judge",
+            "Claripy.Props.C12.C12_reabsorb_marker_without_model", "Claripy.Solver.compQuery_judge",
             "Claripy.Solver.child_batchEval_foot", "Claripy.Solver.child_solution_foot",
-            "Claripy.Props.C12.C12_update_accepts_valid"]
+            "Claripy.Props.C12.C12_update_accepts_valid",
+            # round 6: the marker clauses of MCInv under the guard of the code; CInv THROUGH the queries; whole histories
+            "Claripy.Props.C12.C12_marker_guarded", "Claripy.Props.C12.C12_marker_unguarded", "Claripy.Props.C12.C12_reabsorb_noop",
+            "Claripy.Props.C12.C12_call_keeps_invariant", "Claripy.Props.C12.C12_composite_history_partial",
+            "Claripy.Props.C12.C12_composite_history_invariant", "Claripy.Props.C12.C12_composite_history_given_reabsorb_partial",
+            "Claripy.Props.C12.C12_composite_history_one_owner_partial", "Claripy.Solver.comp_hist3", "Claripy.Solver.ownersOk_of_oneName",
+            "Claripy.Solver.compSatisfiable_solvers",
+            # _reabsorb_solver re-establishes CInv (split, update branch, replace branch); arbitrary histories
+            "Claripy.Props.C12.C12_reabsorb_keeps_invariant", "Claripy.Props.C12.C12_composite_history",
+            "Claripy.Props.C12.C12_composite_history_keeps_invariant", "Claripy.Props.C12.C12_call_correct",
+            "Claripy.Solver.reabsorbKeeps", "Claripy.Solver.reabsorbKeeps_of_replace", "Claripy.Solver.reabsorbReplaceKeeps",
+            "Claripy.Solver.childSplit_spec", "Claripy.Solver.split_go_spec", "Claripy.Solver.child_add_marks",
+            "Claripy.Solver.mcInv_of_trivMarks", "Claripy.Solver.part_marker_const", "Claripy.Solver.childUpdate_step",
+            "Claripy.Solver.storeAll_get_part", "Claripy.Solver.storeAll_get_other",
+            # min / max: footprint of the child's min / max (class one stage down, frame-only _extrema), composite theorems
+            "Claripy.Props.C12.C12_max_correct", "Claripy.Props.C12.C12_min_correct", "Claripy.Props.C12.C12_child_footprint_extrema",
+            "Claripy.Solver.z3Extrema_l1", "Claripy.Solver.child_extremum_foot", "Claripy.Solver.compExtremum_step",
+            "Claripy.Solver.comp_histX",
+            "Claripy.Solver.CInv.of_world", "Claripy.Solver.compQuery_keeps", "Claripy.Solver.compTruth_keeps",
+            "Claripy.Solver.solverForNames_one", "Claripy.Solver.child_truth_foot", "Claripy.Solver.MCInv.evalExh",
+            "Claripy.Solver.MCInv.opt"]
 A = lambda c, s=0: {"s": s, "op": "add", "cs": [c]}  # noqa: E731
 E = lambda e, n, s=0: {"s": s, "op": "eval", "e": e, "n": n, "extra": []}  # noqa: E731
 RULES = {
